@@ -4,6 +4,7 @@ From Coq Require Import ZArith QArith List Bool String Lia.
 From OMV Require Import Base.Val C27.Model C27.ProofsValid.
 Import ListNotations.
 Open Scope Z_scope. Open Scope string_scope.
+Arguments finish : simpl never.
 
 (* ------------------------------------------------------------------ assoc lists, continued *)
 
@@ -205,6 +206,16 @@ Qed.
 Lemma entry_eta : forall e, mkentry (e_decl e) (e_val e) = e.
 Proof. destruct e; reflexivity. Qed.
 
+Lemma exit_nil : forall c s s2,
+  wf c s2 -> frame_eq s s2 -> s_cache s2 = s_cache s ->
+  exists s3, exit_loop c s2 (rev []) = (s3, None) /\ wf c s3 /\ frame_eq s s3 /\ s_cache s3 = s_cache s /\
+    (forall t, In t (tgts s []) -> alookup t (s_dict s3) = alookup t (s_dict s)) /\
+    (forall t, ~ In t (tgts s []) -> alookup t (s_dict s3) = alookup t (s_dict s2)).
+Proof.
+  intros c s s2 W F C. exists s2. simpl.
+  split; [reflexivity|]. split; auto. split; auto. split; auto. split; [intros ? []|auto].
+Qed.
+
 Lemma enter_exit : forall c kw s s1 ch e1,
   wf c s -> enter_fixed c s kw = (s1, ch, e1) ->
   wf c s1 /\ frame_eq s s1 /\
@@ -218,16 +229,16 @@ Proof.
   intros c. induction kw as [|[n v] kw IH]; intros s s1 ch e1 W H.
   - simpl in H. inversion H; subst. clear H.
     split; auto. split; [apply frame_refl|]. split; auto. split; auto.
-    intros s2 W2 F2 C2. exists s2. simpl. repeat split; auto; try apply F2. intros ? [].
+    intros s2 W2 F2 C2. apply exit_nil; auto.
   - simpl in H.
     destruct (get_item s n) as [eg|old] eqn:Eg.
     { inversion H; subst. clear H.
       split; auto. split; [apply frame_refl|]. split; auto. split; [discriminate|].
-      intros s2 W2 F2 C2. exists s2. simpl. repeat split; auto; try apply F2. intros ? []. }
+      intros s2 W2 F2 C2. apply exit_nil; auto. }
     destruct (set_item c s n v) as [es|sA] eqn:Es.
     { inversion H; subst. clear H.
       split; auto. split; [apply frame_refl|]. split; auto. split; [discriminate|].
-      intros s2 W2 F2 C2. exists s2. simpl. repeat split; auto; try apply F2. intros ? []. }
+      intros s2 W2 F2 C2. apply exit_nil; auto. }
     set (sB := with_cache sA (cache_push (s_cache sA) n old)) in *.
     destruct (enter_fixed c sB kw) as [[s3' ch'] e'] eqn:Ee.
     inversion H; subst s1 ch e1. clear H.
@@ -284,17 +295,17 @@ Proof.
       - exists l. rewrite rev_app_distr. simpl. auto.
       - exists []. simpl. auto. }
     destruct Hrev as [l [Hrev Hl]]. rewrite Hrev. rewrite rev_involutive.
-    set (s1x := with_cache s3 (aupdate n l (s_cache s3))).
+    set (s1x := with_cache s3 (aupdate n l (s_cache sB))).
     assert (Er1x : resolve (s_dict s1x) n = inr (t, et')) by exact Er3.
     rewrite Rd in Hasg.
     rewrite (set_assignable c s1x n t et' old Er1x Hro3 Hasg).
     set (s2x := with_dict s1x (aupdate t (mkentry (e_decl et') (Some old)) (s_dict s1x))).
     assert (Cfinal : s_cache (match l with [] => with_cache s2x (aremove n (s_cache s2x)) | _ => s2x end)
                      = s_cache s).
-    { unfold s2x, s1x. simpl. rewrite C3. unfold sB. simpl. rewrite CAeq.
-      destruct (alookup n (s_cache s)) as [l'|] eqn:El.
-      - subst l. destruct PP as [PP1 PP2]. destruct l'; [contradiction|]. simpl. exact PP1.
-      - subst l. simpl. exact PP. }
+    { destruct (alookup n (s_cache s)) as [l'|] eqn:El.
+      - subst l. destruct PP as [PP1 PP2]. destruct l'; [contradiction|].
+        unfold s2x, s1x, sB. simpl. rewrite CAeq. exact PP1.
+      - subst l. unfold s2x, s1x, sB. simpl. rewrite CAeq. exact PP. }
     assert (Dfinal : s_dict (match l with [] => with_cache s2x (aremove n (s_cache s2x)) | _ => s2x end)
                      = aupdate t (mkentry (e_decl et') (Some old)) (s_dict s3)).
     { destruct l; reflexivity. }
@@ -437,27 +448,27 @@ Qed.
 Lemma run_op_pres : forall c, c_temp_finally c = true ->
   forall o, decl_free_op o = true -> pres c (run_op c o).
 Proof.
-  intros c Hc. induction o using op_ind'; intros Hd s s' ob e W H; simpl in Hd; try discriminate.
+  intros c Hc. induction o using op_ind'; intros Hd s s' ob e W HR; simpl in Hd; try discriminate.
   - (* set *)
-    simpl in H. destruct (set_item c s n v) as [e0|s1] eqn:E.
-    + apply finish_state in H. subst. split; auto. split; [apply frame_refl | reflexivity].
-    + apply finish_state in H. subst. destruct (set_pres _ _ _ _ _ W E) as [W1 [F1 [C1 _]]]. auto.
+    simpl in HR. destruct (set_item c s n v) as [e0|s1] eqn:E.
+    + apply finish_state in HR. subst. split; auto. split; [apply frame_refl | reflexivity].
+    + apply finish_state in HR. subst. destruct (set_pres _ _ _ _ _ W E) as [W1 [F1 [C1 _]]]. auto.
   - (* get *)
-    simpl in H. destruct (get_item s n).
-    + apply finish_state in H. subst. split; auto. split; [apply frame_refl | reflexivity].
-    + inversion H; subst. split; auto. split; [apply frame_refl | reflexivity].
+    simpl in HR. destruct (get_item s n).
+    + apply finish_state in HR. subst. split; auto. split; [apply frame_refl | reflexivity].
+    + inversion HR; subst. split; auto. split; [apply frame_refl | reflexivity].
   - (* update *)
-    simpl in H. destruct (update c s kw) as [s1 e1] eqn:E. simpl in H.
-    apply finish_state in H. subst. eapply update_pres; eauto.
+    simpl in HR. destruct (update c s kw) as [s1 e1] eqn:E. simpl in HR.
+    apply finish_state in HR. subst. eapply update_pres; eauto.
   - (* temporary *)
     assert (Hb : pres c (run_list (run_op c) body)) by (apply run_list_pres; auto).
-    destruct (temp_core c kw body Hc Hb _ _ _ _ W H) as [A [B [C _]]]. auto.
+    destruct (temp_core c kw body Hc Hb _ _ _ _ W HR) as [A [B [C _]]]. auto.
   - (* try *)
     assert (Hb : pres c (run_list (run_op c) body)) by (apply run_list_pres; auto).
-    simpl in H. destruct (run_list (run_op c) body s) as [[s1 ob1] e1] eqn:E.
-    apply finish_state in H. subst. eapply Hb; eauto.
+    simpl in HR. destruct (run_list (run_op c) body s) as [[s1 ob1] e1] eqn:E.
+    apply finish_state in HR. subst. eapply Hb; eauto.
   - (* raise *)
-    simpl in H. inversion H; subst. split; auto. split; [apply frame_refl | reflexivity].
+    simpl in HR. inversion HR; subst. split; auto. split; [apply frame_refl | reflexivity].
 Qed.
 
 Lemma body_pres : forall c body, c_temp_finally c = true -> decl_free body = true ->
@@ -512,14 +523,23 @@ Definition d_int : decl := mkdecl None (Some (TyOne TInt)) None None false None 
 Definition s_ab : st :=
   fst (declare cfg_found (fst (declare cfg_found (st0 false) "a" d_int (Some (PInt 1)))) "b" d_int (Some (PInt 2))).
 
+Lemma alookup_in : forall A t (l : list (name * A)) e, alookup t l = Some e -> In e (map snd l).
+Proof.
+  induction l as [|[k x] r IH]; simpl; intros e H; [discriminate|].
+  destruct (String.eqb k t); [inversion H; auto | right; auto].
+Qed.
+
+Lemma s_ab_dict : s_dict s_ab = [("a", mkentry d_int (Some (PInt 1))); ("b", mkentry d_int (Some (PInt 2)))].
+Proof. reflexivity. Qed.
+
 Lemma s_ab_wf : forall c, wf c s_ab.
 Proof.
   intros c. split.
-  - intros t e H. unfold s_ab in H. simpl in H.
-    destruct (String.eqb "a" t); [inversion H; subst|destruct (String.eqb "b" t); [inversion H; subst|discriminate]];
-      simpl; (split; [intros v w Hv Hw; inversion Hw; subst; split; auto
-                     | intros v Hv; inversion Hv; subst; split; reflexivity]).
-  - simpl. intros; discriminate.
+  - intros t e H. rewrite s_ab_dict in H. apply alookup_in in H.
+    destruct H as [H | [H | []]]; subst e;
+      (split; [intros v w Hv Hw; inversion Hw; subst; split; auto
+              | intros v Hv; inversion Hv; subst; split; reflexivity]).
+  - intros n l H. discriminate.
 Qed.
 
 (* exception in the body: with o.temporary(a=5): raise  ->  a == 5 afterwards, cache not empty *)
